@@ -9,6 +9,7 @@ import LolHtml.Lemmas.Edit
 import LolHtml.Lemmas.EditDoc
 import LolHtml.Lemmas.ElementOps
 import LolHtml.Lemmas.Attrs
+import LolHtml.Spec.EditDoc
 
 namespace LolHtml.Thm.C07
 open LolHtml LolHtml.Model LolHtml.Spec.Edit LolHtml.Lemmas.Edit
@@ -451,5 +452,100 @@ example : staysOff exH encUtf8 (step exH encUtf8 (St.init exH) exToks[0]).1 [.te
 
 /-- the text handler did run on the removed text (2 chunks: `a` and the end-of-node chunk) -/
 example : (steps exH encUtf8 (St.init exH) (exToks.take 3)).1.inv 1 = 2 := by decide
+
+
+/-! ## C07_output_eq_edit_spec — whole documents (stretch; statement + counterexamples)
+
+`Spec.EditDoc.rewrite` is the documented edit of a whole token stream, over element extents. The
+dispatcher defers the end-region edits of an element to "the next end tag that pops it", which is
+the element's own end tag only if it has one. The full statement therefore needs the side condition
+`cleanRun` (no element carrying end-region edits ends without an end tag of its own); it is kept as
+a `Prop` (not proved in general — it is checked on every lane case: model = implementation,
+`Spec.EditDoc.rewrite` = the harness's reference editor, and `cleanRun → model = spec`), and the
+unconditional version is *refuted* on concrete witnesses, which are genuine defects of /repo. -/
+
+/-- Full statement (not proved in general). -/
+def C07_output_eq_edit_spec_statement : Prop :=
+  ∀ (H : List Handler) (enc : Enc) (toks : List SrcToken),
+    Spec.EditDoc.cleanRun H enc {} toks = true →
+    (rewrite H enc toks).2 = Spec.EditDoc.rewrite H enc toks
+
+/-- `<div><span>x</div>y` -/
+def cexToks : List SrcToken :=
+  [.startTag [100, 105, 118] [] false .html [60, 100, 105, 118, 62],
+   .startTag [115, 112, 97, 110] [] false .html [60, 115, 112, 97, 110, 62],
+   .text [120],
+   .endTag [100, 105, 118] [60, 47, 100, 105, 118, 62],
+   .text [121]]
+
+def spanHandler (ops : List ElementOp) : List Handler :=
+  [{ sel := some (.type [115, 112, 97, 110]), script := .element fun _ => ops }]
+
+/-- **Defect (implicit close, `after`)**: `span.after("A")` on the unclosed `<span>`: documented
+`<div><span>xA</div>y`; the model (= the implementation, lane-checked) gives `<div><span>x</div>Ay`
+— the content lands outside the parent element. -/
+theorem C07_implicit_close_after_counterexample :
+    (rewrite (spanHandler [.after (.buffer [65] .html)]) encUtf8 cexToks).2
+        = [60, 100, 105, 118, 62, 60, 115, 112, 97, 110, 62, 120, 60, 47, 100, 105, 118, 62, 65, 121]
+      ∧ Spec.EditDoc.rewrite (spanHandler [.after (.buffer [65] .html)]) encUtf8 cexToks
+        = [60, 100, 105, 118, 62, 60, 115, 112, 97, 110, 62, 120, 65, 60, 47, 100, 105, 118, 62, 121] := by
+  decide
+
+/-- **Defect (implicit close, removal)**: `span.remove_and_keep_content()` on the unclosed `<span>`
+deletes the end tag of the *parent*: documented `<div>x</div>y`, model/implementation `<div>xy`. -/
+theorem C07_implicit_close_removes_parent_end_tag_counterexample :
+    (rewrite (spanHandler [.removeAndKeepContent]) encUtf8 cexToks).2
+        = [60, 100, 105, 118, 62, 120, 121]
+      ∧ Spec.EditDoc.rewrite (spanHandler [.removeAndKeepContent]) encUtf8 cexToks
+        = [60, 100, 105, 118, 62, 120, 60, 47, 100, 105, 118, 62, 121] := by
+  decide
+
+/-- **Defect (implicit close, rename)**: `span.set_tag_name("b")` renames the parent's end tag:
+documented `<div><b>x</div>y`, model/implementation `<div><b>x</b>y`. -/
+theorem C07_implicit_close_renames_parent_end_tag_counterexample :
+    (rewrite (spanHandler [.setTagName [98]]) encUtf8 cexToks).2
+        = [60, 100, 105, 118, 62, 60, 98, 62, 120, 60, 47, 98, 62, 121]
+      ∧ Spec.EditDoc.rewrite (spanHandler [.setTagName [98]]) encUtf8 cexToks
+        = [60, 100, 105, 118, 62, 60, 98, 62, 120, 60, 47, 100, 105, 118, 62, 121] := by
+  decide
+
+/-- **Defect (unclosed at end of input)**: `<div><span>x` with `span.append("B"); span.after("A")`:
+documented `<div><span>xBA`; model/implementation `<div><span>x` — the insertions are lost. -/
+theorem C07_unclosed_eof_counterexample :
+    (rewrite (spanHandler [.append (.buffer [66] .html), .after (.buffer [65] .html)]) encUtf8
+        (cexToks.take 3)).2
+        = [60, 100, 105, 118, 62, 60, 115, 112, 97, 110, 62, 120]
+      ∧ Spec.EditDoc.rewrite (spanHandler [.append (.buffer [66] .html), .after (.buffer [65] .html)])
+          encUtf8 (cexToks.take 3)
+        = [60, 100, 105, 118, 62, 60, 115, 112, 97, 110, 62, 120, 66, 65] := by
+  decide
+
+/-- The unconditional whole-document property is false. -/
+theorem C07_output_eq_edit_spec_unconditional_false :
+    ¬ ∀ (H : List Handler) (enc : Enc) (toks : List SrcToken),
+        (rewrite H enc toks).2 = Spec.EditDoc.rewrite H enc toks := by
+  intro h
+  have := h (spanHandler [.removeAndKeepContent]) encUtf8 cexToks
+  rw [C07_implicit_close_removes_parent_end_tag_counterexample.1,
+    C07_implicit_close_removes_parent_end_tag_counterexample.2] at this
+  exact absurd this (by decide)
+
+/-- The side condition is not vacuous and the statement holds there: a closed element with edits in
+all regions. `<div><span>x</span></div>` with
+`span { before a; prepend p; append q; after z; set_tag_name b }`. -/
+example :
+    let toks : List SrcToken :=
+      [.startTag [100, 105, 118] [] false .html [60, 100, 105, 118, 62],
+       .startTag [115, 112, 97, 110] [] false .html [60, 115, 112, 97, 110, 62],
+       .text [120],
+       .endTag [115, 112, 97, 110] [60, 47, 115, 112, 97, 110, 62],
+       .endTag [100, 105, 118] [60, 47, 100, 105, 118, 62]]
+    let H := spanHandler [.before (.buffer [97] .html), .prepend (.buffer [112] .html),
+      .append (.buffer [113] .html), .after (.buffer [122] .html), .setTagName [98]]
+    Spec.EditDoc.cleanRun H encUtf8 {} toks = true
+      ∧ (rewrite H encUtf8 toks).2 = Spec.EditDoc.rewrite H encUtf8 toks
+      ∧ (rewrite H encUtf8 toks).2
+          = [60, 100, 105, 118, 62, 97, 60, 98, 62, 112, 120, 113, 60, 47, 98, 62, 122,
+             60, 47, 100, 105, 118, 62] := by decide
 
 end LolHtml.Thm.C07
